@@ -1078,8 +1078,10 @@ func rootCell(cell ssa.Value) ssa.Value {
 }
 
 // c19SuccessOnlyAfterSuccess: the value that counts as a completion signal of
-// a step (the one sent where a worker's verdict was "no error") is sent
-// nowhere else.  In particular the timeout's callback cannot send it: a step
+// a step (identified as the one sent where a worker's verdict was "no error")
+// is sent only by the step's workers (the functions started with go, and
+// helpers only they call), and never where the worker's error is known to be
+// non-nil.  In particular the timeout's callback cannot send it: a step
 // whose expected message never arrived does not pass because time ran out.
 func c19SuccessOnlyAfterSuccess(c *Ctx, rule string) {
 	run := c.P.Func("tools/expect", "Session", "Run")
@@ -1133,7 +1135,70 @@ func c19SuccessOnlyAfterSuccess(c *Ctx, rule string) {
 		in     *ssa.Send
 		roots  []interface{}
 		noErr  bool
+		isErr  bool
 		inFunc *ssa.Function
+	}
+	// the workers of a step: functions started with `go` inside Run, and helpers that only they call
+	workers := map[*ssa.Function]bool{}
+	for _, f := range scope {
+		ssau.Instrs(f, func(in ssa.Instruction) {
+			g, ok := in.(*ssa.Go)
+			if !ok {
+				return
+			}
+			if sc := g.Call.StaticCallee(); sc != nil {
+				workers[sc] = true
+			}
+			for _, d := range deepDefs(g.Call.Value, scope) {
+				switch x := d.(type) {
+				case *ssa.MakeClosure:
+					if fn, isFn := x.Fn.(*ssa.Function); isFn {
+						workers[fn] = true
+					}
+				case *ssa.Function:
+					workers[x] = true
+				}
+			}
+		})
+	}
+	for changed := true; changed; {
+		changed = false
+		for _, f := range scope {
+			if workers[f] || f == run {
+				continue
+			}
+			sites := callSitesOf(f, scope)
+			if len(sites) == 0 {
+				// a closure defined in a worker and only called there
+				if f.Parent() != nil && workers[f.Parent()] {
+					used := false
+					ssau.Instrs(f.Parent(), func(in ssa.Instruction) {
+						if mc, isMC := in.(*ssa.MakeClosure); isMC && mc.Fn == ssa.Value(f) {
+							for _, r := range ssau.Referrers(mc) {
+								if _, isCall := r.(*ssa.Call); !isCall {
+									used = true // handed on: not only called
+								}
+							}
+						}
+					})
+					if !used {
+						workers[f] = true
+						changed = true
+					}
+				}
+				continue
+			}
+			all := true
+			for _, cs := range sites {
+				if !workers[cs.Parent()] {
+					all = false
+				}
+			}
+			if all {
+				workers[f] = true
+				changed = true
+			}
+		}
 	}
 	var sends []sendSite
 	for _, f := range scope {
@@ -1173,6 +1238,8 @@ func c19SuccessOnlyAfterSuccess(c *Ctx, rule string) {
 					}
 					if (bo.Op.String() == "==" && ft.True) || (bo.Op.String() == "!=" && !ft.True) {
 						st.noErr = true
+					} else {
+						st.isErr = true
 					}
 				}
 				sends = append(sends, st)
@@ -1203,7 +1270,9 @@ func c19SuccessOnlyAfterSuccess(c *Ctx, rule string) {
 			continue
 		}
 		perFn[st.inFunc]++
-		c.R.Check(st.noErr, rule, fmt.Sprintf("%s: completion signal #%d", fname(st.inFunc), perFn[st.inFunc]), c.pos(st.in), "sent where the worker's verdict was no error", "the value that counts as a step's completion signal is also sent here, where no worker has finished without error (say when the step's time is up): a step can pass although an expected message never arrived")
+		// a worker may also send it at its very end, after every failure has returned (no error is pending there)
+		okSend := st.noErr || (workers[st.inFunc] && !st.isErr)
+		c.R.Check(okSend, rule, fmt.Sprintf("%s: completion signal #%d", fname(st.inFunc), perFn[st.inFunc]), c.pos(st.in), "sent by a worker of the step, and not where its error is known to be non-nil", "the value that counts as a step's completion signal is also sent here, where no worker has finished without error (say when the step's time is up): a step can pass although an expected message never arrived")
 	}
 }
 
